@@ -29,6 +29,7 @@ BOUND = ("intervals [0,1], [-1,3], [-6,-3], [0.5,0.75], [2,2.125], and for the t
          "of depth<=4; history passes (12 wrapper objects x 12 rotations x 12 trees on two intervals; object reuse over 16 trees for all "
          "24 option tuples and the balanced grid); GlobalRombergGrid wrapper (one object per option triple, cache on) on every tree of depth<=3 twice, interleaved. "
          "Lagrange containers, constant subtraction and init_perfect_tree_with_max_level are out of scope")
+BOUND += "; fault / magnitude additions: per option tuple (unbalanced objects): a grid request aborted by a failing analytic integral of the reference function (second call), then the same grid again, 5 trees"
 RULE = BOUND + "; a case is one (interval, level sequence of the tree, option tuple); every case with at least one inner point is non-trivial"
 BUDGET = {"quick": 60.0, "thorough": 840.0}
 
